@@ -23,6 +23,19 @@ Theorem C04_method_names_total : forall d h ta f c,
 Proof. exact method_names_total. Qed.
 Print Assumptions C04_method_names_total.
 
+(* the class namespace as a method table: registering every declared (direction, format, codec) method under its
+   generated name in ANY order leaves each retrievable - formats never overwrite each other *)
+Theorem C04_method_table_no_overwrite : forall (order: list cfg) (c: cfg),
+  Permutation.Permutation order all_cfgs -> In c all_cfgs ->
+  t_get (register [] (map (fun x => (cfg_name x, x)) order)) (cfg_name c) = Some c.
+Proof. exact method_table_no_overwrite. Qed.
+Print Assumptions C04_method_table_no_overwrite.
+
+Example C04_method_table_nonvacuous :
+  In (DPack, "jsonb", true) all_cfgs /\ In (DUnpack, "toml", false) all_cfgs /\ List.length all_cfgs = 18%nat /\
+  cfg_name (DUnpack, "toml", false) = "__mashumaro_from_dict_toml__".
+Proof. repeat split; try reflexivity; vm_compute; tauto. Qed.
+
 (* non-vacuity: the declared formats are the expected ones and the names are the real ones *)
 Example C04_names_nonvacuous :
   In "jsonb" all_formats /\ In "msgpack" all_formats /\ In "toml" all_formats /\
